@@ -334,6 +334,25 @@ type ErrGroup struct {
 	wg     WaitGroup
 	err    error
 	cancel func()
+	limit  int // 0 = unlimited (SetLimit)
+	active int
+}
+
+// SetLimit limits the number of active goroutines of the group (x/sync semantics; negative = no limit).
+func (g *ErrGroup) SetLimit(n int) {
+	if n < 0 {
+		n = 0
+	}
+	g.limit = n
+}
+
+// TryGo starts f only if the limit allows it and reports whether it did.
+func (g *ErrGroup) TryGo(f func() error) bool {
+	if g.limit > 0 && g.active >= g.limit {
+		return false
+	}
+	g.Go(f)
+	return true
 }
 
 func ErrGroupWithContext(ctx context.Context) (*ErrGroup, context.Context) {
@@ -342,9 +361,15 @@ func ErrGroupWithContext(ctx context.Context) (*ErrGroup, context.Context) {
 }
 
 func (g *ErrGroup) Go(f func() error) {
+	if g.limit > 0 && g.active >= g.limit {
+		// x/sync blocks here until a slot is free
+		Block("errgroup limit", func() bool { return g.active < g.limit })
+	}
+	g.active++
 	g.wg.Add(1)
 	GoNamed("errgroup@"+callerName(1), func() {
 		defer g.wg.Done()
+		defer func() { g.active-- }()
 		if err := f(); err != nil {
 			if g.err == nil {
 				g.err = err
